@@ -152,7 +152,7 @@ pub fn c11(o: &Opts) -> Outcome {
 }
 
 /// C12: k-mer CGR rows through the public file API
-fn c12_batch(recs: &[Vec<u8>], k: usize, size: usize, norm: bool, threads: usize) -> Option<Vec<(String, String)>> {
+pub fn c12_batch(recs: &[Vec<u8>], k: usize, size: usize, norm: bool, threads: usize) -> Option<Vec<(String, String)>> {
     let sc = Scratch::new("ocgr");
     let inp = sc.path("in.fa");
     let out = sc.path("out.txt");
